@@ -4,6 +4,7 @@ import (
 	"fmt"
 	"go/constant"
 	"go/token"
+	"go/types"
 	"os"
 	"runtime"
 	"sort"
@@ -621,6 +622,23 @@ func (e *Explorer) inlinable(c *ssa.CallCommon, st *State) *ssa.Function {
 	var callee *ssa.Function
 	if e.ResolveCallee != nil {
 		callee = e.ResolveCallee(c, st)
+	}
+	if callee == nil && c.IsInvoke() {
+		// an interface call whose receiver is, on this path, a value of a known concrete type
+		var dyn types.Type
+		root := st.Root(c.Value)
+		if mi, ok := root.(*ssa.MakeInterface); ok {
+			dyn = mi.X.Type()
+		} else if !types.IsInterface(root.Type()) {
+			dyn = root.Type() // (value resolution looks through the conversion to the interface)
+		}
+		if dyn != nil {
+			if sel := e.P.SSA.MethodSets.MethodSet(dyn).Lookup(c.Method.Pkg(), c.Method.Name()); sel != nil {
+				if m := e.P.SSA.MethodValue(sel); m != nil {
+					callee = e.P.Unwrap(m)
+				}
+			}
+		}
 	}
 	if callee == nil {
 		cs := e.P.Callees(c)
